@@ -204,3 +204,20 @@ Theorem uncompress_unchecked_refuted :
     tv (m_uncompress (DInt t) indptr) <> tv (m_uncompress DInf indptr).
 Proof. exact uncompress_refuted_proof. Qed.
 Print Assumptions uncompress_unchecked_refuted.
+
+(* ---- GCXS change_compressed_axes / transpose / reshape (convert._transpose): the dtype chosen by
+        get_out_dtype(x.indices, max(max(new_compressed_shape), x.nnz)) — the expression is regenerated
+        from the source — is used for the new indices AND the new indptr; every index (< R, < C) and
+        every indptr entry (<= nnz) fits it, for every dtype of x.indices, also when nnz alone exceeds
+        that dtype (the state GCXS joins of narrow-index members produce) *)
+Theorem width_irrelevant_transpose : forall t R C rc cc,
+  std t -> 0 < R -> 0 < C -> coords_in R rc -> coords_in C cc ->
+  Z.max (Z.max R C) (Z.of_nat (length rc)) < 2 ^ 64 ->
+  exists t',
+    rmap (fun p => (tdt (fst p), tdt (snd p))) (m_transpose (DInt t) R C rc cc) = Ok (DInt t', DInt t') /\
+    std t' /\
+    fits (DInt t') (Z.of_nat (length rc)) = true /\
+    rmap (fun p => (tv (fst p), tv (snd p))) (m_transpose (DInt t) R C rc cc) =
+    rmap (fun p => (tv (fst p), tv (snd p))) (m_transpose DInf R C rc cc).
+Proof. exact width_irrelevant_transpose_proof. Qed.
+Print Assumptions width_irrelevant_transpose.
